@@ -71,19 +71,30 @@ def table_of(fac):
     return [o for o in ops if o not in ('[]', '{}')], '[]' in seen, '{}' in seen, nvo
 
 
+_NAME_RE = re.compile(r'(?=\\N\{([^}]+)\})')
+
+
 def cfg_json(fac, texts, names=None, max_digits=None):
     """the "cfg" object of a driver request. `texts`: every text of the request (the character
-    classes are sent for the code points that occur). `names`: {name: char or None} for \\N{..}."""
+    classes are sent for the code points that occur). `names`: function name -> char or None, asked
+    for every `\\N{..}` candidate that occurs in the texts (default: `resolve_name`)."""
     word, digit = char_classes()
+    names = names or resolve_name
     used = set()
+    cand = set()
     for t in texts:
         used.update(map(ord, t))
+        if '\\N{' in t:
+            cand.update(_NAME_RE.findall(t))
     ops, idx, mp, nvo = table_of(fac)
     for o in ops + ([nvo] if nvo else []):
         used.update(map(ord, o))
+    nm = []
+    for n in sorted(cand):
+        v = names(n)
+        nm.append([cps(n), (ord(v) if v is not None else None)])
     return dict(
-        ops=[cps(o) for o in ops], idx=idx, map=mp, nvo=cps(nvo) if nvo else None,
-        names=[[cps(n), (ord(v) if v is not None else None)] for n, v in sorted((names or {}).items())],
+        ops=[cps(o) for o in ops], idx=idx, map=mp, nvo=cps(nvo) if nvo else None, names=nm,
         maxDigits=sys.get_int_max_str_digits() if max_digits is None else max_digits,
         word=sorted(used & word), digit=sorted([c, digit[c]] for c in used & set(digit)))
 
@@ -153,10 +164,18 @@ def real_next(engine, text, pos):
         return dict(foreign='%s: %s' % (type(e).__name__, e))
 
 
+def big_int(s):
+    """int(s) for ASCII digits without the interpreter's digit limit"""
+    if len(s) <= 4000:
+        return int(s)
+    k = len(s) // 2
+    return big_int(s[:k]) * 10 ** (len(s) - k) + big_int(s[k:])
+
+
 def model_float(text):
     """the float a model literal `ddd.ddd` (ASCII) denotes: the decimal rational, correctly rounded"""
     a, b = text.split('.')
-    num, den = int(a + b), 10 ** len(b)
+    num, den = big_int(a + b), 10 ** len(b)
     try:
         return num / den          # int / int is correctly rounded
     except OverflowError:
